@@ -85,7 +85,12 @@ def workload(ctx):
         eta = float(rng.uniform(0, 360))
         if j % 10 == 0:
             eta = float(rng.choice([0.0, 90.0, 180.0, 270.0, 360.0]))
-        yield "polar", {"eta": eta, "r": float(10 ** rng.uniform(0, 3.5)), "c": [float(x) for x in rng.uniform(-3000, 3000, 2)],
+        r = float(10 ** rng.uniform(0, 3.5))
+        if j % 8 == 1:
+            r = 1.0                      # the boundary the property names: radius exactly one pixel
+        elif j % 8 == 2:
+            r = float(rng.integers(1, 2000))
+        yield "polar", {"eta": eta, "r": r, "c": [float(x) for x in rng.uniform(-3000, 3000, 2)],
                         "pt": [float(x) for x in rng.uniform(-3000, 3000, 2)]}
 
 
